@@ -176,7 +176,11 @@ def build_leafdrv(san=True):
     if os.path.exists(exe):
         return exe
     sk = os.path.join(REPO, "skeletons")
-    cmd = ["gcc", "-std=gnu99", "-w", "-D" + GUARD, "-I" + sk, "-I" + HARNESS] + (SAN if san else ["-O1", "-g"]) + \
+    incs = sorted(f for f in os.listdir(HARNESS) if re.match(r"leafdrv_\w+\.inc$", f) and f != "leafdrv_more.inc")
+    more = "".join('#include "%s"\n' % f for f in incs)
+    more += "#define MORE_CMDS " + " ".join("CMDS_" + f[len("leafdrv_"):-4].upper() for f in incs) + "\n"
+    open(os.path.join(out, "leafdrv_more.inc"), "w").write(more)
+    cmd = ["gcc", "-std=gnu99", "-w", "-D" + GUARD, "-I" + sk, "-I" + out, "-I" + HARNESS] + (SAN if san else ["-O1", "-g"]) + \
           [os.path.join(HARNESS, "leafdrv.c"), lib, "-lm", "-o", exe]
     rc, o = sh(cmd, timeout=300)
     if rc != 0:
